@@ -141,7 +141,7 @@ func (h *genericContextualizer) Execute(ctx heimdall.Context, sub *subject.Subje
 	}
 
 	if h.ttl > 0 {
-		cacheKey = h.calculateCacheKey(sub, vals, payload)
+		cacheKey = h.calculateCacheKey(ctx, sub, vals, payload)
 		if entry, err := cch.Get(ctx.AppContext(), cacheKey); err == nil {
 			var cd contextualizerData
 
@@ -352,6 +352,7 @@ func (h *genericContextualizer) readResponse(ctx heimdall.Context, resp *http.Re
 }
 
 func (h *genericContextualizer) calculateCacheKey(
+	ctx heimdall.Context,
 	sub *subject.Subject,
 	values map[string]string,
 	payload string,
@@ -365,7 +366,9 @@ func (h *genericContextualizer) calculateCacheKey(
 	hashx.WriteBytes(hash, h.e.Hash())
 	hashx.WriteString(hash, h.id)
 	hashx.WriteStrings(hash, h.fwdHeaders)
+	hashx.WriteStringsFunc(hash, h.fwdHeaders, func(name string) string { return ctx.Request().Header(name) })
 	hashx.WriteStrings(hash, h.fwdCookies)
+	hashx.WriteStringsFunc(hash, h.fwdCookies, func(name string) string { return ctx.Request().Cookie(name) })
 	hashx.WriteString(hash, payload)
 	hash.Write(ttlBytes)
 	hashx.WriteBytes(hash, sub.Hash())
